@@ -39,6 +39,7 @@ func runC06(c *Ctx) {
 	ruleGroupFromTerms(c, "R6.3")
 	ruleNoLocalInputInGroup(c, "R6.4")
 	ruleEchoBroadcastOrder(c, "R6.5")
+	ruleDecodedElementsNotShared(c, "R6.7")
 	ruleSignedCoverage(c, "R6.6") // the terms the final group is built from are the terms every node verified: all of them are signed
 }
 
@@ -353,6 +354,8 @@ func runC13(c *Ctx) {
 	ruleCompletedOnlyOnSuccessAs(c, "R13.4")
 	ruleServeAfterDurable(c, "R13.5")
 	ruleNoDestructiveStepBeforeKeyFiles(c, "R13.6")
+	ruleAppendStorePut(c, "R13.8")      // the chain on disk is gap-free: the append layer checks and writes a round in one critical section
+	ruleSaveReplacesContent(c, "R13.9") // a key file that is rewritten holds exactly the new document
 	ruleErrorsOfPersistenceChecked(c, "R13.7", "internal/dkg", "internal/core", "common/key", "internal/chain/boltdb")
 }
 
@@ -588,4 +591,34 @@ func ruleRestartCoherence(c *Ctx, rule string) {
 	}
 	c.Ok(rule, "internal/core.(*BeaconProcess).Load checks that the loaded share belongs to the loaded group", c.P.Pos(fn.Pos()), compares,
 		"no comparison between the share's public polynomial (Commits) and the group's distributed public key on the restart path")
+}
+
+// R6.7: every element the DKG bundle decoders produce owns its decoded value. A group element (scalar / point) that is
+// created once outside the loop and decoded into on every iteration is shared by all elements: the bundle the protocol sees
+// (and whose signature it checks) carries the last value in every position, and only the nodes that received such a bundle
+// over the wire disagree with its author.
+func ruleDecodedElementsNotShared(c *Ctx, rule string) {
+	c.ranRules[rule] = true
+	n := 0
+	for _, key := range []string{"internal/dkg.protoToDeal", "internal/dkg.protoToResp", "internal/dkg.protoToJustif"} {
+		fn := c.P.Fn(key)
+		if !c.Anchor(rule, key, fn != nil) {
+			continue
+		}
+		// receivers of an Unmarshal* call made inside a loop must be created inside that loop
+		for _, ci := range callsIn(fn, func(ci ssa.CallInstruction) bool {
+			return ci.Common().IsInvoke() && strings.HasPrefix(ci.Common().Method.Name(), "Unmarshal") && inLoop(ci.(ssa.Instruction).Block())
+		}) {
+			n++
+			recv := stripConv(ci.Common().Value)
+			fresh := false
+			detail := "receiver " + trimTemps(pathOf(recv))
+			if mk, ok := recv.(*ssa.Call); ok {
+				fresh = inLoop(mk.Block())
+				detail += ifStr(!fresh, " is created once, before the loop, and decoded into on every iteration")
+			}
+			c.Ok(rule, fnShort(fn)+" decodes each element into a value of its own", shortPos(c.P, ci), fresh, detail)
+		}
+	}
+	c.Floor(rule, "per-element decodes in the DKG bundle decoders", n, 1)
 }
